@@ -765,6 +765,11 @@ func (interp *Interpreter) cfg(root *node, sc *scope, importPath, pkgName string
 						if !shadow {
 							// Do not overload existing symbols (defined in GTA) in global scope.
 							sym, _, _ = sc.lookup(dest.ident)
+							if !sc.global && sym != nil && n.nleft > 1 {
+								// In a multiple definition, a variable already declared in
+								// the same scope is assigned, not created.
+								dest.redeclared = true
+							}
 						}
 					}
 					if sym == nil {
